@@ -192,6 +192,13 @@ class _TransposeFusedMatMulBaseWithBatch(orp.RewriteRuleClassBase):
         perm = list(transposed_node.attributes.get_ints("perm") or [])
         if not perm:
             return check_result.fail("Permutation values for Transpose are not correct.")
+        # transBatchA/B is only defined when both operands have the same rank (that of the
+        # transposed operand); onnxruntime rejects FusedMatMul(transBatchA=1) on mixed ranks.
+        other = y if self._pos == 1 else x
+        if not _ir_utils.has_rank(other, len(perm)):
+            return check_result.fail(
+                "Batch transpose rules require both operands to have the same rank."
+            )
 
         list_perm = list(range(len(perm)))
         if len(perm) < 3:
